@@ -376,6 +376,17 @@ func checkMain(args []string) {
 		if fv.Violation.Class != "crash" && ro.EventHash != fmt.Sprintf("%016x", fv.EventHash) {
 			die2("nondeterministic harness: event log of run %d differs between worker (%016x) and fresh replay (%s) (see %s)", fv.Idx, fv.EventHash, ro.EventHash, tmp)
 		}
+		if kf := matchKnown(known, cv); kf != nil {
+			// a listed finding: reported as such, not minimised again on every run
+			final := filepath.Join(*violDir, fmt.Sprintf("%s-%d-%d.known.json", p.ID, seed, si))
+			sc.Expect = cv
+			sc.Hash = ro.EventHash
+			_ = writeScenario(final, sc)
+			os.Remove(tmp)
+			knownHits[kf.What]++
+			reportLines = append(reportLines, fmt.Sprintf("KNOWN-FINDING: property=%s %s (replay=%s)", p.ID, kf.What, final))
+			continue
+		}
 		// minimise
 		test := func(c *Scenario) bool {
 			// always in a fresh process: a corrupted pool can bring the whole process down, and race reports are
@@ -387,7 +398,11 @@ func checkMain(args []string) {
 			r2, err := replayFresh(self, f, 5*time.Minute)
 			return err == nil && hasSig(r2.Violations, s) != nil
 		}
-		minSc, tried := minimize(sc, &fv.Violation, test, 400, 180*time.Second)
+		minBudget := 45 * time.Second
+		if *tier == "thorough" {
+			minBudget = 180 * time.Second
+		}
+		minSc, tried := minimize(sc, &fv.Violation, test, 400, minBudget)
 		os.Remove(tmp + ".min-candidate")
 		final := filepath.Join(*violDir, fmt.Sprintf("%s-%d-%d.json", p.ID, seed, si))
 		minSc.Expect = &fv.Violation
